@@ -19,14 +19,14 @@ Proof. destruct d; reflexivity. Qed.
 Definition set_schema (d : dstore) (n : nat) : dstore :=
   mkD (d_file d) n (d_st d) (d_msgs d) (d_subs d) (d_deliv d).
 
-(** the 26 CREATE ... IF NOT EXISTS statements, issued in order on an existing
+(** the 27 CREATE ... IF NOT EXISTS statements, issued in order on an existing
     file, complete the schema from wherever an earlier run stopped *)
 Lemma schema_run d :
   d_file d = true ->
   run_steps d (map MSchema (seq 0 NSCHEMA)) = set_schema d (Nat.max NSCHEMA (d_schema d)).
 Proof.
   destruct d as [f n s ms sb dl]. cbn [d_file d_schema]. intros ->.
-  do 27 (destruct n as [|n]; [vm_compute; reflexivity|]).
+  do 28 (destruct n as [|n]; [vm_compute; reflexivity|]).
   vm_compute. reflexivity.
 Qed.
 
@@ -194,6 +194,29 @@ Proof.
   - cbn. rewrite Z.eqb_refl. destruct d; reflexivity.
 Qed.
 
+(** ---- CreateMailboxPerUser: allocator statement, then INSERT ------------------------------ *)
+
+Lemma ready_schema2 d : ready d = true -> d_file d = true /\ (2 <=? d_schema d)%nat = true /\ (1 <=? d_schema d)%nat = true.
+Proof.
+  unfold ready. intros Hr. apply andb_true_iff in Hr. destruct Hr as [Hf Hs].
+  apply Nat.leb_le in Hs. unfold NTABLES in Hs. repeat split; auto; apply Nat.leb_le; lia.
+Qed.
+
+Lemma create_steps_refines d n t s' id :
+  ready d = true -> create_mailbox_row (d_st d) n t = Some (s', id) ->
+  run_steps d (create_steps (d_st d) n t) = with_st d s'.
+Proof.
+  intros Hr Cr. destruct (ready_schema2 d Hr) as (F & S2 & S1).
+  unfold create_steps, run_steps. cbn [fold_left exec]. rewrite F, S2. cbn [andb d_file d_schema with_st d_st].
+  rewrite F, S1. cbn [andb].
+  unfold create_mailbox_row in Cr. unfold insert_mailbox_row, alloc_validity.
+  destruct n as [|c r]; [discriminate|]. cbn [find_name mboxes] in *.
+  change (find_name (mkStore (mboxes (d_st d)) (links (d_st d)) (next_msg (d_st d)) (glog (d_st d))
+            (gused (d_st d) ++ [(c :: r, next_validity (d_st d) t)]) (gser (d_st d))) (c :: r))
+    with (find_name (d_st d) (c :: r)).
+  destruct (find_name (d_st d) (c :: r)); [discriminate|]. inversion Cr. reflexivity.
+Qed.
+
 (** ---- delivery --------------------------------------------------------------------------- *)
 
 Lemma msgs_below_with_st d s : msgs_below d -> next_msg s = next_msg (d_st d) -> msgs_below (with_st d s).
@@ -236,18 +259,11 @@ Proof.
     replace (next_msg (d_st d0) + 1 =? next_msg (d_st d0)) with false by (symmetry; apply Z.eqb_neq; lia).
     destruct ok; reflexivity.
   - destruct (create_mailbox_row (d_st d0) f t) as [[s' id]|] eqn:Cr.
-    + change (([MInsMailbox f t] ++ ?r)) with (MInsMailbox f t :: r).
-      unfold run_steps. cbn [fold_left]. fold (run_steps (exec d0 (MInsMailbox f t))).
-      assert (E1 : exec d0 (MInsMailbox f t) = with_st d0 s').
-      { unfold exec. unfold ready in Hr. apply andb_true_iff in Hr. destruct Hr as [Hf Hs].
-        rewrite Hf. apply Nat.leb_le in Hs. unfold NTABLES in Hs.
-        replace (1 <=? d_schema d0)%nat with true by (symmetry; apply Nat.leb_le; lia).
-        rewrite Cr. reflexivity. }
-      rewrite E1.
+    + rewrite run_steps_app, (create_steps_refines d0 f t s' id Hr Cr).
       pose proof (create_row_next _ _ _ _ _ Cr) as Hn0.
       assert (Hb' : msgs_below (with_st d0 s')) by (apply msgs_below_with_st; auto).
       pose proof (deliver_tail_refines (with_st d0 s') id sh Hb') as T. cbn [d_st with_st] in T.
-      unfold run_steps in T. rewrite T. unfold store_message.
+      rewrite T. unfold store_message.
       destruct (add_message _ _ _ _) as [s3 ok] eqn:Ea.
       assert (Hn : next_msg s3 = next_msg s' + 1).
       { match type of Ea with add_message ?a ?b ?c ?e = _ => pose proof (add_message_next a b c e) as X end.
